@@ -883,6 +883,17 @@ func RulePanic(r *Report, p *Program, tier string, wireTypes map[string]bool) {
 					if have < n && proveLenAtLeast(p, x, x.X, n) {
 						have = n // x[e:e+c] with c >= n, or a length established by the dominating comparisons
 					}
+					// ip.To4() / ip.To16() is nil or exactly 4 / 16 bytes long (documented): non-nil here means that long
+					if call, ok := x.X.(*ssa.Call); ok && have < n {
+						if f := call.Call.StaticCallee(); f != nil && knownNonNilAt(x.X, x.Block()) {
+							switch calleeName(f) {
+							case "(net.IP).To4":
+								have = 4
+							case "(net.IP).To16":
+								have = 16
+							}
+						}
+					}
 					if have >= n {
 						st.ok, st.why = true, "slice of at least the array length converted to an array"
 					} else {
@@ -1188,7 +1199,12 @@ func classifyPanic(p *Program, fn *ssa.Function, x *ssa.Panic) panicSite {
 		}
 		s.ok = okAll && n > 0
 		s.why = fmt.Sprintf("type-switch default: all %d static callers pass handled types", n)
-		if n == 0 && s.detail == "" {
+		if n == 0 && s.detail == "" && okAll && unreferenced(p, fn) {
+			// nothing calls the function, nothing takes it as a value and no interface of the module asks for a method
+			// of its name: what was its only caller now does the work itself, the function is dead code
+			s.ok = true
+			s.why = "unreachable: an unexported function that nothing calls or refers to"
+		} else if n == 0 && s.detail == "" {
 			s.detail = "type-switch default with no static callers to justify it"
 		}
 	}
@@ -2114,22 +2130,42 @@ func bcdPackingIdiom(base, idx ssa.Value) bool {
 		}
 		return nil
 	}
-	// len = (len(s)+1)/2
-	q, ok := ms.Len.(*ssa.BinOp)
-	if !ok || q.Op != token.QUO {
-		return false
+	// len = (len(s)+1)/2, written in place or as a size helper of the module called with len(s)
+	// (func EncodedLen(n int) int { return (n + 1) / 2 })
+	halfUp := func(v ssa.Value) ssa.Value {
+		q, ok := v.(*ssa.BinOp)
+		if !ok || q.Op != token.QUO {
+			return nil
+		}
+		if c, ok := constInt(q.Y); !ok || c != 2 {
+			return nil
+		}
+		add, ok := q.X.(*ssa.BinOp)
+		if !ok || add.Op != token.ADD {
+			return nil
+		}
+		if c, ok := constInt(add.Y); !ok || c != 1 {
+			return nil
+		}
+		return add.X
 	}
-	if c, ok := constInt(q.Y); !ok || c != 2 {
-		return false
+	var s ssa.Value
+	if x := halfUp(ms.Len); x != nil {
+		s = strOfLen(x)
+	} else if call, ok := ms.Len.(*ssa.Call); ok && !call.Call.IsInvoke() {
+		if g := call.Call.StaticCallee(); g != nil && inModule(g) && len(g.Blocks) == 1 && len(g.FreeVars) == 0 {
+			ins := g.Blocks[0].Instrs
+			if ret, ok := ins[len(ins)-1].(*ssa.Return); ok && len(ret.Results) == 1 {
+				if prm, ok := halfUp(ret.Results[0]).(*ssa.Parameter); ok {
+					for i, q := range g.Params {
+						if q == prm && i < len(call.Call.Args) {
+							s = strOfLen(call.Call.Args[i])
+						}
+					}
+				}
+			}
+		}
 	}
-	add, ok := q.X.(*ssa.BinOp)
-	if !ok || add.Op != token.ADD {
-		return false
-	}
-	if c, ok := constInt(add.Y); !ok || c != 1 {
-		return false
-	}
-	s := strOfLen(add.X)
 	if s == nil {
 		return false
 	}
@@ -2283,6 +2319,96 @@ func reflectCallResults(p *Program, base ssa.Value) (int, bool) {
 		return 0, false
 	}
 	return min, true
+}
+
+// unreferenced: an unexported function or method that no instruction of the program mentions (as callee or as a
+// value) and, for a method, whose name no interface type declared in the module contains.
+func unreferenced(p *Program, fn *ssa.Function) bool {
+	if fn.Object() == nil || fn.Object().Exported() || fn.Parent() != nil {
+		return false
+	}
+	for _, g := range p.AllFuncs {
+		for _, b := range g.Blocks {
+			for _, in := range b.Instrs {
+				for _, op := range in.Operands(nil) {
+					if f, ok := (*op).(*ssa.Function); ok && (f == fn || f.Origin() == fn) {
+						return false
+					}
+				}
+				// a bound method value or an interface call by name
+				if ci, ok := in.(ssa.CallInstruction); ok && ci.Common().IsInvoke() && ci.Common().Method.Name() == fn.Name() {
+					return false
+				}
+			}
+		}
+	}
+	if fn.Signature.Recv() != nil {
+		for _, pk := range p.Pkgs {
+			sc := pk.Types.Scope()
+			for _, name := range sc.Names() {
+				tn, ok := sc.Lookup(name).(*types.TypeName)
+				if !ok {
+					continue
+				}
+				if it, ok := tn.Type().Underlying().(*types.Interface); ok {
+					for i := 0; i < it.NumMethods(); i++ {
+						if it.Method(i).Name() == fn.Name() {
+							return false
+						}
+					}
+				}
+			}
+		}
+		// wrappers and bound-method thunks of the method
+		for _, g := range p.AllFuncs {
+			if g.Synthetic != "" && g.Object() == fn.Object() && g != fn {
+				for _, h := range p.AllFuncs {
+					for _, b := range h.Blocks {
+						for _, in := range b.Instrs {
+							for _, op := range in.Operands(nil) {
+								if f, ok := (*op).(*ssa.Function); ok && f == g {
+									return false
+								}
+							}
+						}
+					}
+				}
+			}
+		}
+	}
+	return true
+}
+
+// knownNonNilAt: a comparison of v with nil that came out "not nil" dominates the block.
+func knownNonNilAt(v ssa.Value, at *ssa.BasicBlock) bool {
+	for _, b := range at.Parent().Blocks {
+		if len(b.Instrs) == 0 || len(b.Succs) != 2 {
+			continue
+		}
+		ifi, ok := b.Instrs[len(b.Instrs)-1].(*ssa.If)
+		if !ok {
+			continue
+		}
+		bo, ok := ifi.Cond.(*ssa.BinOp)
+		if !ok || (bo.Op != token.NEQ && bo.Op != token.EQL) {
+			continue
+		}
+		isNil := func(x ssa.Value) bool {
+			c, ok := x.(*ssa.Const)
+			return ok && c.IsNil()
+		}
+		if !((bo.X == v && isNil(bo.Y)) || (bo.Y == v && isNil(bo.X))) {
+			continue
+		}
+		succ := b.Succs[0]
+		if bo.Op == token.EQL {
+			succ = b.Succs[1]
+		}
+		if len(succ.Preds) == 1 && succ.Dominates(at) {
+			return true
+		}
+	}
+	return false
 }
 
 func constIntOrNil(v ssa.Value) (int64, bool) {
